@@ -15,7 +15,7 @@ def PathInv (parse : Bool → String → P) (c : PathCache P) : Prop :=
 
 /-- every memoised handler is what the uncached lookup gives under the current registrations -/
 def HInv (compute : String × String → Option H) (hc : HCache H) : Prop :=
-  ∀ k h, (k, h) ∈ hc → compute k = some h
+  ∀ k r, (k, r) ∈ hc → compute k = r
 
 def WorldInv (parse : Bool → String → P) (compute : R → String × String → Option H) (w : World P H R) : Prop :=
   PathInv parse w.pc ∧ ∀ rg, HInv (compute (w.reg rg)) (w.hc rg)
@@ -36,6 +36,28 @@ def lookup1 {P H : Type} (rg : Nat) (ty op : String) : Strategy P H (Option H) :
   | [] => .inl (.handler rg ty op)
   | [.handler h] => .inr h
   | _ => .inr none
+
+/-- what a direct lookup shows -/
+inductive LookupOut (H : Type) where
+  | found (h : H)
+  | raised            -- UnregisteredTarget
+  | retFalse          -- `False` returned (`raise_exc=False`)
+  deriving DecidableEq, Repr
+
+/-- the reference of a direct lookup: what the registrations give, seen through `raise_exc` -/
+def lookupRef {H : Type} (raiseExc : Bool) (r : Option H) : LookupOut H :=
+  match r with
+  | some h => .found h
+  | none => if raiseExc then .raised else .retFalse
+
+/-- one handler lookup with either value of `raise_exc`; its outcome is what the caller sees -/
+def lookupX {P H : Type} (rg : Nat) (ty op : String) (raiseExc : Bool) : Strategy P H (LookupOut H) := fun answers =>
+  match answers with
+  | [] => .inl (.handler rg ty op raiseExc)
+  | [.handler (some h)] => .inr (.found h)
+  | [.handler none] => .inr .raised
+  | [.noHandler] => .inr .retFalse
+  | _ => .inr .raised
 
 /-- the registrations in force / the PATH_STAR value after a history -/
 def regsAfter : (Nat → R) → List (HOp P H O R) → (Nat → R)
